@@ -179,7 +179,7 @@ Section Module.
       assert (Hp : has arch p).
       { apply Hdeps. unfold required_symbols. apply in_or_app. right. apply in_or_app. right. rewrite Ei. left. reflexivity. }
       destruct (has_some _ _ Hp) as ([a ?] & ->). exact I. }
-    intros [[gates' subs'] conns0].
+    intros [[gates' subs'] conns0]. cbn [andb]. destruct (has_dup_field subs'); [exact I|].
     apply returns_bind; [apply transform_connections_returns; exact Hwf|]. intros conns. exact I.
   Qed.
 End Module.
@@ -192,6 +192,7 @@ Proof.
   destruct (transform_gates _) as [gs| | |]; cbn [bind] in H; try discriminate.
   destruct (transform_submodules _ _ _ _) as [ss| | |]; cbn [bind] in H; try discriminate.
   destruct (match md_inherit m with Some _ => _ | None => _ end) as [[[a b] c]| | |]; cbn [bind] in H; try discriminate.
+  destruct (fx && has_dup_field b); [discriminate|].
   destruct (transform_connections _ _ _ _ _) as [cs| | |]; cbn [bind] in H; try discriminate.
   injection H as _ <-. reflexivity.
 Qed.
